@@ -710,6 +710,9 @@ func nativeReplay(repo, verif, pdir, id string, g GroupCfg, replayPath, scratch 
 		runErr = cmd.Run()
 	}
 	text := out.String()
+	if os.Getenv("SYMGO_SHOW_NATIVE") != "" {
+		fmt.Fprintln(os.Stderr, text)
+	}
 	if !strings.Contains(text, "VERIF-REPLAY-BEGIN") {
 		return false, "replay did not start: " + firstLines(text, 6)
 	}
